@@ -128,6 +128,7 @@ static int slot_of(const void* p) { for (int i = 0; i < NS; i++) if ((const void
 // state of the current right-hand-side evaluation, assembled from hook events
 static struct { int o, sp, dp, eact, dact; bool open; double tder; long nrhs; bool first_at_sys; int sysid; } cur;
 static long rhs_total = 0;
+static bool ini_cache_clear = true;    // the last-pointer cache of set_system_pointers as ini() left it
 
 static void flush_rhs() {
   if (!cur.open) return;
@@ -155,6 +156,7 @@ static void sink(const char* tag, const void* p0, const void* p1, long a, long b
   else if (!strcmp(tag, "sq.bind.dp")) cur.dp = aid(p1);
   else if (!strcmp(tag, "sq.derive")) cur.tder = *(const double*)p1;
   else if (!strcmp(tag, "sq.ini")) { /* reported by the command handler */ }
+  else if (!strcmp(tag, "sq.ini.cache")) { ini_cache_clear = (p1 == nullptr && a == 0); }
   else if (!strcmp(tag, "sq.evolve.start")) { cur.nrhs = 0; cur.first_at_sys = true; cur.sysid = aid(p1);
     printf("{\"e\":\"EvolveStart\",\"o\":%d,\"sys\":%d,\"num\":%ld,\"paramsok\":%s}\n", o, aid(p1), a, b ? "true" : "false"); calls.clear(); }
   else if (!strcmp(tag, "sq.evolve.driverfreed")) { flush_rhs(); }
@@ -186,9 +188,10 @@ int main() {
         if (cmd == "NEW") { new (slots[o - 1]) TestSolver(); live[o - 1] = true; S(o - 1).slot = o;
           S(o - 1).Set_rel_error(1e-10); S(o - 1).Set_abs_error(1e-10); S(o - 1).Set_h(1e-3); }
         TestSolver& s = S(o - 1);
+        ini_cache_clear = false;                 // set by the hook inside ini()
         s.ini(nx, nsun, nrhos, nsc, t04 / 4.0);
         s.fill_initial();
-        printf("{\"e\":\"Ini\",\"o\":%d,\"sys\":%d,\"eact\":%d,\"nx\":%u,\"nrhos\":%u,\"nsc\":%u,\"t4\":%ld,\"fresh\":%s}\n", o, aid(s.state_ptr()), aid(s.estate_ptr()), nx, nrhos, nsc, t04, cmd == "NEW" ? "true" : "false");
+        printf("{\"e\":\"Ini\",\"o\":%d,\"sys\":%d,\"eact\":%d,\"nx\":%u,\"nrhos\":%u,\"nsc\":%u,\"t4\":%ld,\"fresh\":%s,\"cacheclear\":%s}\n", o, aid(s.state_ptr()), aid(s.estate_ptr()), nx, nrhos, nsc, t04, cmd == "NEW" ? "true" : "false", ini_cache_clear ? "true" : "false");
       } else if (cmd == "DESTROY") { in >> o; S(o - 1).~TestSolver(); live[o - 1] = false; printf("{\"e\":\"Destroy\",\"o\":%d}\n", o);
       } else if (cmd == "SW") { int k, b; in >> o >> k >> b; TestSolver& s = S(o - 1);
         switch (k) { case 1: s.Set_CoherentRhoTerms(b); break; case 2: s.Set_NonCoherentRhoTerms(b); break; case 3: s.Set_OtherRhoTerms(b); break;
